@@ -41,7 +41,7 @@ type Task struct {
 	AcqSeq  uint64
 	AcqCnt  uint64
 	Sched   uint64 // how many times the scheduler picked this task (its progress in scheduling points)
-	RecAcq  bool     // record every acquisition's sequence number in AcqLog
+	RecAcq  bool   // record every acquisition's sequence number in AcqLog
 	AcqLog  []uint64
 	Local   map[string]any
 	started bool
@@ -77,17 +77,17 @@ type Sim struct {
 	mainDone atomic.Bool
 
 	schedGoid uint64
-	Steps    int
-	seq      uint64
-	start    time.Time
-	hash     [32]byte
-	schedH   [32]byte
-	log      []string
-	orphanN  int
-	adoptN   int
-	policy   int
-	stallDen int
-	Stalls   []time.Duration
+	Steps     int
+	seq       uint64
+	start     time.Time
+	hash      [32]byte
+	schedH    [32]byte
+	log       []string
+	orphanN   int
+	adoptN    int
+	policy    int
+	stallDen  int
+	Stalls    []time.Duration
 
 	// OSHook is consulted by simos before (after=false) and after every
 	// rewritten os call. It may yield, inject an error (before only) or record a
@@ -99,6 +99,7 @@ type Sim struct {
 
 	Stats      map[string]int
 	mapW       map[uintptr]*Task // maps in the middle of a modelled write (see MapWriteBegin)
+	closers    []func()          // run when the run ends (pipes created by repository code)
 	Violations []Violation
 	Verdict    string // "", "hang", "budget", "panic"
 	PanicInfo  string
@@ -187,7 +188,6 @@ func (s *Sim) newTaskLocked(label string) *Task {
 	s.tasks = append(s.tasks, t)
 	return t
 }
-
 
 // ---------------------------------------------------------------------------------
 // parking
@@ -677,7 +677,15 @@ func (s *Sim) kill() {
 	s.dead.Store(true)
 	s.mu.Lock()
 	ts := append([]*Task(nil), s.tasks...)
+	closers := s.closers
+	s.closers = nil
 	s.mu.Unlock()
+	// goroutines of repository code blocked on a pipe whose other end was abandoned (e.g. the pump
+	// of an estargz.Blob that is closed before it was read to the end) would stay blocked for ever
+	// and keep their buffers: the run is over, break the pipes
+	for _, c := range closers {
+		c()
+	}
 	for _, t := range ts {
 		select {
 		case t.gate <- struct{}{}:
@@ -703,7 +711,6 @@ type Result struct {
 	Tasks       int
 	Policy      int
 }
-
 
 // Run executes body as task "main" of a fresh simulation inside a synctest
 // bubble and returns what happened. The run ends when main returns, a
